@@ -106,6 +106,13 @@ impl VHDLServer {
 
     fn reload_project(&mut self) {
         let config = self.load_config();
+        if self.severity_map != *config.severities() {
+            // What the client has been sent was rendered with the previous severities.
+            // Forget the diagnostics (but not the files) so that everything is sent anew.
+            for cached_diagnostics in self.diagnostic_cache.values_mut() {
+                cached_diagnostics.clear();
+            }
+        }
         self.severity_map = *config.severities();
         self.case_transform = config.preferred_case();
 
